@@ -382,7 +382,7 @@ pub fn generate(seed: u64, thorough: bool) -> Vec<String> {
         out.push(format!("fmt {} {}", cps(&i.s_txt), cps(&i.e_txt)));
     }
     let pieces = ["a", "b", r"\*", "/", r"\\", "-", r"\-", "]", r"\]", "^", "'", "\"", "é", "\t", r"\n", r"\u{41}", "\\", "x", "{", r"\{", "😀", "\u{7f}", " "];
-    let nfmt = if thorough { 3000 } else { 600 };
+    let nfmt = if thorough { 10000 } else { 600 };
     for _ in 0..nfmt {
         let mk = |rng: &mut Rng, maxn: usize| -> String {
             let n = rng.range(0, maxn);
@@ -393,7 +393,7 @@ pub fn generate(seed: u64, thorough: bool) -> Vec<String> {
         out.push(format!("fmt {} {}", cps(&s), cps(&e)));
     }
     // blk: torture texts per instance
-    let per_inst = if thorough { 400 } else { 70 };
+    let per_inst = if thorough { 1200 } else { 70 };
     for i in &insts {
         let Ok(r) = resolve(i) else { continue };
         let mut alpha = dedup(r.e.iter().chain(r.s.iter()).cloned().collect());
@@ -441,6 +441,17 @@ pub fn generate(seed: u64, thorough: bool) -> Vec<String> {
             }
             texts.push(t);
         }
+        // the documented witnesses (DESIGN.md §8) and the inputs of the repository's own scan tests
+        let documented: &[&str] = match i.full.as_str() {
+            "c" => &["/* *// */", "/**//*/", "code /***/ more code /* comment */ /* com*ment */", "/*/ not end */ /* ** */ /***/", "/**/ /* a */ /****/ /* b*c */ /**/"],
+            "html" => &["<!-- x --->", "<!-- x -->", "<!----->"],
+            "ocamldoc" => &["code (** a * b ** c **) more (***) text"],
+            "braces2" => &["{{} not end }} {{ {} }} {{{{}}"],
+            _ => &[],
+        };
+        for d in documented {
+            out.push(blk_line(&r, &d.chars().map(|c| c as u32).collect::<Vec<_>>()));
+        }
         for t in texts {
             out.push(blk_line(&r, &t));
         }
@@ -461,7 +472,13 @@ pub fn generate(seed: u64, thorough: bool) -> Vec<String> {
         let Ok(re) = relower::lower_str(&rx) else { continue };
         let mut alpha = dedup(m.clone());
         alpha.extend(['x' as u32, 0x20, 0xe9, 0x2028, 0x85, 0x0b, 0x0c]);
-        let nline = if thorough { 600 } else { 120 };
+        if stxt == "//" {
+            for d in ["// a\rb", "// a\r\nb", "// a\nb", "//\r/"] {
+                let t: Vec<u32> = d.chars().map(|c| c as u32).collect();
+                out.push(format!("line {} {} {} {}", cps(&stxt), show_nats(&m), re.enc(), show_nats(&t)));
+            }
+        }
+        let nline = if thorough { 2000 } else { 120 };
         for _ in 0..nline {
             let mut t: Vec<u32> = vec![];
             let nl = rng.range(1, 4);
